@@ -37,6 +37,16 @@ HANDMADE = [
 ]
 
 
+# read in text mode (checks/c17_edits.py text_mode_variant puts the mode line on top): components that wrap, with
+# aliases, notes and quantities, under a front matter too
+HANDMADE_TEXT_MODE = [
+    "Mix @sea\nsalt flakes{1%tsp} and #big\npot{} then ~rest\ntime{5%min} done\n\nServe @bread{} hot",
+    "---\ntitle: T\n---\n\nAdd @olive oil|good oil{2%tbsp}(extra\nvirgin only) to #frying pan{}\n\n= Part two =\n\nThen @&olive oil{} again\n",
+    "Add @sea salt{} now\nand @black\npepper corns{1 1/2%tsp} later -- soon\n\n> a note with @x{} inside\n",
+    "@salt and @pepper{} with #pan\n",
+]
+
+
 def run_recipe(bindir, cases):
     """cases: list of (text, ext, conv) -> list of observation dicts"""
     lines = ["%s %d %s" % (hx(t), e, c) for t, e, c in cases]
@@ -84,7 +94,13 @@ def run(rep, tier, seed):
     pairs = []
     excluded = {}
     points_avail = {}
-    for text, _exp, prof, _info in hand + gen:
+    # text-mode readings: every hand-made source, the ones written for it, every fourth generated recipe
+    tm_src = [t for t, _ in HANDMADE] + HANDMADE_TEXT_MODE
+    tm = [(ed.text_mode_variant(t, rng), None, "extended", "textmode") for t in tm_src for _ in range(4 if quick else 20)]
+    tm += [(ed.text_mode_variant(g[0], rng), None, "extended", "textmode") for g in gen[::4]]
+    for text, _exp, prof, info in hand + gen + tm:
+        textmode = info == "textmode"
+        sfx = "/textmode" if textmode else ""
         ext, conv = PROFILES[prof]
         P = ed.points(text, ext != 0)
         for k, v in P.excluded.items():
@@ -94,15 +110,20 @@ def run(rep, tier, seed):
         points_avail["line_end"] = points_avail.get("line_end", 0) + len(P.line_end)
         points_avail["fence_end"] = points_avail.get("fence_end", 0) + len(P.fence_end)
         points_avail["line_start"] = points_avail.get("line_start", 0) + len(P.line_start)
-        pairs.append((text, ed.crlf(text), ext, conv, "crlf", text.count("\n"), True))
+        pairs.append((text, ed.crlf(text), ext, conv, "crlf" + sfx, text.count("\n"), True))
         for name, fn in ed.EDITS.items():
+            if textmode and name in ed.TEXT_MODE_SKIP:
+                excluded["text_mode_qty"] = excluded.get("text_mode_qty", 0) + 1
+                continue
             for ti in range(ntapes):
                 t2, npts = fn(text, P, rng, MODES[ti % 3])
                 if npts:
-                    pairs.append((text, t2, ext, conv, name, npts, True))
+                    pairs.append((text, t2, ext, conv, name + sfx, npts, True))
         # two edits at once (a CRLF file with comments)
         t2, npts = ed.trail_comment(text, P, rng, "few")
-        pairs.append((text, ed.crlf(t2), ext, conv, "trail_comment+crlf", npts + t2.count("\n"), True))
+        pairs.append((text, ed.crlf(t2), ext, conv, "trail_comment+crlf" + sfx, npts + t2.count("\n"), True))
+        if textmode:
+            continue
         for name in ed.PROBES:
             t2, npts = ed.probe(text, P, rng, name)
             if npts:
@@ -173,20 +194,25 @@ def run(rep, tier, seed):
     common.decide(rep, PID, "metamorphic monitor on parse results + L-lex/L-ev on the edited texts", audit, hits, dis,
                   tier, "correspondence Model/Lexer.v, Model/Parser.v <-> src/lexer, src/parser on CRLF / commented texts")
     common.proof_coverage(rep, PID, audit, tier,
-                          "lexer and pull parser (Model/Lexer.v, Model/Parser.v); the analysis stage (references, "
-                          "metadata interpretation, validity) is observed on the implementation only: the monitor "
-                          "compares complete parse results")
+                          "lexer, pull parser and analysis pass (Model/Lexer.v, Model/Parser.v, Model/Analysis.v, "
+                          "Model/MetaMap.v): CRLF, extra lines and the block comment after a word are theorems about the "
+                          "recipe, its validity and the metadata map (C17_*_recipe) outside text mode; text mode, the "
+                          "trailing comment at document level and comments after a number are observed on the "
+                          "implementation only: the monitor compares complete parse results")
     rep.coverage.update({
         "evaluations": len(pairs) + ncases, "distinct_nontrivial": len(nontrivial),
         "rule": "%d generated and %d hand-made well-formed recipes (canonical: no extensions/empty converter; extended: all "
                 "extensions/bundled converter) x {crlf, trail_comment, trail_space, trail_multi (line already ending in a block comment), "
                 "mid_comment, mid_comment_double (two adjacent comments), mid_comment_spaced, name_comment_spaced, "
                 "qty_comment (between the number tokens of a quantity, after `{`), extra_lines} x %d tapes (one point / up to four / every legal point), plus trail_comment+crlf; "
+                "the same edits (without qty_comment) on text-mode readings (`>> [mode]: text` / `>> [define]: text` on top of the Cooklang part, "
+                "all extensions) of every hand-made source, of %d sources with components that wrap, and of every fourth generated recipe "
+                "(per_edit names ending in /textmode: edit points inside the kept source of a component); "
                 "CRLF on every input without backslash or lone CR: exhaustive strings containing a newline (%d; "
                 "length <= %d over the 16-symbol core alphabet and %s over a 12-symbol comment/metadata "
                 "alphabet), front-matter line arrangements (%d), one-token mutations of generated recipes (%d), "
                 "specials, each under both profiles; distinct_nontrivial = distinct (edited text, extensions) with "
-                "edited != source" % (ngen, len(HANDMADE), ntapes, n_ex, 4 if quick else 5, "all of length 5" if quick else "all of length 5 + 200000 sampled of length 6", n_fm, n_mut),
+                "edited != source" % (ngen, len(HANDMADE), ntapes, len(HANDMADE_TEXT_MODE), n_ex, 4 if quick else 5, "all of length 5" if quick else "all of length 5 + 200000 sampled of length 6", n_fm, n_mut),
         "samples": [dict(edit=k, **v) for k, v in samples.items()],
         "per_edit": per_edit,
         "edit_points_used": sum(v["edit_points"] for v in per_edit.values()),
@@ -206,6 +232,8 @@ def run(rep, tier, seed):
                                   "The same variant between the words of component names, aliases, notes, section names and "
                                   "metadata keys IS judged (edit name_comment_spaced): text_trimmed collapses the double blank",
             "probe_brace": "a comment after a word/number inside `{...}`: quantity positions, reported only",
+            "text_mode_qty": "text-mode sources: qty_comment may put a blank where there was none (`{ [-c-] 1}`); inside the "
+                             "kept source of a component that is a blank-space difference the statement does not allow for",
         },
         "probes_not_judged": probes,
         "monitor_cases": len(pairs), "monitor_parses": len(keys), "monitor_violations": len(hits),
